@@ -12,5 +12,5 @@ Vec(sc) == LET f == Final(InitSt(sc)) IN
                  delivered |-> f.delivered, closeAfterWrite |-> f.closeAfterWrite,
                  closeFinal |-> f.closeCount, cweFinal |-> f.cweCount, cweErr |-> f.cweErr ] ]
 
-ASSUME ndJsonSerialize("vectors.ndjson", SetToSeq({ Vec(sc) : sc \in ScenarioSpace(MaxL, Both) }))
+ASSUME ndJsonSerialize("vectors.ndjson", SetToSeq({ Vec(sc) : sc \in ScenarioSpace(MaxL) }))
 =============================================================================
